@@ -186,7 +186,7 @@ def run_native(exe, inputs, wd, tag):
                 fp.write("%s %s\n" % (n, repr(v)))
             else:
                 fp.write("%s %d\n" % (n, v))
-    env = dict(os.environ, VF_INPUTS=f)
+    env = dict(os.environ, VF_INPUTS=f, VF_LAYOUT_DIR=wd)
     try:
         def lift():
             try:
@@ -294,8 +294,14 @@ def _run_one(o, mod, dem, ll, wd, tier, seed, R, log, irsym):
     E = irsym.Engine(mod, exact=True, timeout_ms=tmo, max_paths=int(opts.get("max_paths", 20000)),
                      max_steps=int(opts.get("max_steps", 3000000)),
                      loop_bound=(int(opts["loop_bound"]) if "loop_bound" in opts else None), keep_traces=True)
+    for ln in open(o.path):
+        ml = re.match(r"\s*//\s*@layout\s+(\S+)(.*)$", ln)
+        if ml and not os.path.exists(os.path.join(wd, "layout.%s.txt" % ml.group(1))):
+            from . import layout
+            layout.write(wd, ml.group(1), tuple(x[1:] for x in ml.group(2).split() if x.startswith("-")))
     E.budget_s = float(opts.get("budget_s", 150)) * (8 if thorough else 1)
     E.presplit = opts.get("presplit", "1") == "1"
+    E.layout_dir = wd
     if os.environ.get("VF_TRACE"):
         E.slowlog = lambda m: print("[%s] %s" % (o.id, m), file=sys.stderr)
     try:
@@ -362,6 +368,7 @@ def _run_one(o, mod, dem, ll, wd, tier, seed, R, log, irsym):
             mismatches.append({"inputs": vec, "why": "native run failed rc=%s %s %s" % (nat["rc"], nat.get("harness_error", ""), nat["stderr"][-300:])})
             continue
         Ec = irsym.Engine(mod, exact=False, inputs={n: v for n, v in vec}, max_steps=int(opts.get("max_steps", 3000000)))
+        Ec.layout_dir = wd
         try:
             rc = Ec.run(o.entry)
         except Exception as e:
